@@ -359,7 +359,9 @@ func (w *World) Rules() []Rule {
 }
 
 func (w *World) Run(syms *SymbolTable) error {
-	done := make(chan error)
+	// buffered: the goroutine below sends at most once and must not stay
+	// blocked when the deadline has already made Run return
+	done := make(chan error, 1)
 	ctx, cancel := context.WithTimeout(context.Background(), w.runLimits.maxDuration)
 	defer cancel()
 
